@@ -243,8 +243,9 @@ var reGoroutine1 = regexp.MustCompile(`(?s)goroutine 1 \[[^\]]*\]:\n(.*?)(\n\n|$
 // ClassifyDeath maps a dead child's stderr to (class, top library frame, detail).
 func ClassifyDeath(stderr string, timedOut bool) (class, frame, detail string) {
 	detail = stderr
-	if len(detail) > 6000 {
-		detail = detail[:6000] + "\n…"
+	if len(detail) > 12000 {
+		// keep the tail (the crash dump) and a little of the head
+		detail = detail[:1500] + "\n…\n" + detail[len(detail)-10000:]
 	}
 	switch {
 	case strings.Contains(stderr, "all goroutines are asleep - deadlock!"):
